@@ -12,6 +12,14 @@ Section KF.
   Lemma kfind_kupdate n m f l : (forall a, key (f a) = key a) ->
     kfind key n (kupdate key m f l) = if N.eqb m n then option_map f (kfind key n l) else kfind key n l.
   Proof. intros Hf. rewrite !kfind_hd, ksel_kupdate; auto. destruct (N.eqb m n); auto. destruct (ksel key n l); auto. Qed.
+  Lemma kfind_kreplace n k l :
+    kfind key n (kupdate key (key k) (fun _ => k) l) = if N.eqb (key k) n then option_map (fun _ => k) (kfind key n l) else kfind key n l.
+  Proof. unfold kfind, kupdate. induction l as [|a l IH]; simpl. { destruct (N.eqb (key k) n); auto. }
+    destruct (N.eqb_spec (key a) (key k)) as [E|E].
+    - rewrite E. destruct (N.eqb_spec (key k) n) as [E'|E']; simpl; auto.
+    - destruct (N.eqb_spec (key k) n) as [E'|E'].
+      + destruct (N.eqb_spec (key a) n); [congruence|]. rewrite IH. auto.
+      + destruct (N.eqb (key a) n); auto. Qed.
   Lemma kfind_single n a : kfind key n [a] = if N.eqb (key a) n then Some a else None.
   Proof. unfold kfind. simpl. destruct (N.eqb (key a) n); auto. Qed.
   Lemma memN_false_kfind n l : memN n (keys key l) = false -> kfind key n l = None.
@@ -62,3 +70,264 @@ Proof. unfold compare_indexes_and_uniques. rewrite !in_app_iff, !in_flat_map. in
     exists (k_name x). split; auto. apply memN_false_kfind in E. rewrite (kfind_nodup k_name x _ Hm Hx).
     destruct ct as [c|]; [|congruence]. simpl in E. rewrite E. congruence.
 Qed.
+
+Lemma alter_column_In g tn cc mc o : In o (alter_column g tn cc mc) -> op_target o = RColumn tn (c_name mc) /\ cc <> mc.
+Proof. intros H. split.
+  - unfold alter_column in H. destruct (compare_nullable cc mc); destruct (compare_type_col g cc mc); simpl in H; try tauto;
+      destruct H as [<-|[]]; reflexivity.
+  - intros ->. rewrite alter_column_refl in H. inversion H. Qed.
+
+Lemma cols_local g tn c m o : NoDup (keys c_name (t_cols c)) -> NoDup (keys c_name (t_cols m)) ->
+  In o (compare_columns_pre g tn c m) \/ In o (compare_columns_post tn c m) ->
+  exists n, op_target o = RColumn tn n /\ kfind c_name n (t_cols c) <> kfind c_name n (t_cols m).
+Proof. intros Hc Hm. unfold compare_columns_pre, compare_columns_post. rewrite in_app_iff, !in_flat_map.
+  intros [[[x [Hx H]]|[x [Hx H]]]|[x [Hx H]]].
+  - destruct (memN _ _) eqn:E; simpl in H; [tauto|]. destruct H as [<-|[]]. exists (c_name x). split; auto.
+    apply memN_false_kfind in E. rewrite E, (kfind_nodup c_name x _ Hm Hx). congruence.
+  - destruct (kfind c_name (c_name x) (t_cols c)) as [cc|] eqn:E; [|inversion H]. apply alter_column_In in H. destruct H as [Ht Hne].
+    exists (c_name x). split; auto. rewrite E, (kfind_nodup c_name x _ Hm Hx). congruence.
+  - destruct (memN _ _) eqn:E; simpl in H; [tauto|]. destruct H as [<-|[]]. exists (c_name x). split; auto.
+    apply memN_false_kfind in E. rewrite E, (kfind_nodup c_name x _ Hc Hx). congruence.
+Qed.
+
+Lemma in_compare_tables g A B o : In o (compare_tables g A B) <->
+  (exists m, In m B /\ memN (t_name m) (keys t_name A) = false /\ In o (added_table m)) \/
+  (exists c, In c A /\ memN (t_name c) (keys t_name B) = false /\ In o (removed_table c)) \/
+  (exists m c, In m B /\ kfind t_name (t_name m) A = Some c /\ In o (existing_table g c m)).
+Proof. unfold compare_tables. rewrite !in_app_iff, !in_flat_map. split.
+  - intros [[x [Hx H]]|[[x [Hx H]]|[x [Hx H]]]].
+    + left. exists x. destruct (memN _ _); [inversion H|auto].
+    + right; left. exists x. destruct (memN _ _); [inversion H|auto].
+    + right; right. exists x. destruct (kfind _ _ _) as [c|]; [|inversion H]. exists c. auto.
+  - intros [[x [Hx [E H]]]|[[x [Hx [E H]]]|[x [c [Hx [E H]]]]]].
+    + left. exists x. rewrite E. auto.
+    + right; left. exists x. rewrite E. auto.
+    + right; right. exists x. rewrite E. auto.
+Qed.
+
+(* every emitted operation is about an object whose lookup differs between the two schemas *)
+Theorem diff_local g A B o : nd_schema A -> nd_schema B -> In o (diff g A B) -> changed A B (op_target o).
+Proof. intros [HAn HAt] [HBn HBt]. unfold diff. rewrite in_compare_tables.
+  intros [[m [Hm [E H]]]|[[c [Hc [E H]]]|[m [c [Hm [E H]]]]]].
+  - apply memN_false_kfind in E. destruct H as [<-|H].
+    + simpl. left. unfold look_table. rewrite E, (kfind_nodup t_name m B); auto. split; congruence.
+    + destruct (HBt m Hm) as [_ Hk]. apply ciu_local in H; auto. destruct H as [n [-> Hne]]. simpl.
+      unfold look_cons. rewrite E, (kfind_nodup t_name m B); auto.
+  - apply memN_false_kfind in E. unfold removed_table in H. apply in_app_iff in H. destruct H as [H|[<-|[]]].
+    + destruct (HAt c Hc) as [_ Hk]. apply ciu_local in H; auto. destruct H as [n [-> Hne]]. simpl.
+      unfold look_cons. rewrite E, (kfind_nodup t_name c A); auto.
+    + simpl. right. unfold look_table. rewrite E, (kfind_nodup t_name c A); auto. split; congruence.
+  - destruct (kfind_some _ _ _ _ E) as [Hc _]. destruct (HAt c Hc) as [Hcc Hck]. destruct (HBt m Hm) as [Hmc Hmk].
+    unfold existing_table in H. rewrite !in_app_iff in H.
+    assert (HB: kfind t_name (t_name m) B = Some m) by (apply kfind_nodup; auto).
+    destruct H as [H|[H|H]].
+    + destruct (cols_local g (t_name m) c m o Hcc Hmc (or_introl H)) as [n [-> Hne]]. simpl. unfold look_col. rewrite E, HB. auto.
+    + apply ciu_local in H; auto. destruct H as [n [-> Hne]]. simpl. unfold look_cons. rewrite E, HB. auto.
+    + destruct (cols_local g (t_name m) c m o Hcc Hmc (or_intror H)) as [n [-> Hne]]. simpl. unfold look_col. rewrite E, HB. auto.
+Qed.
+
+(* ================================================================ the catalogue: what a mutation changes *)
+Lemma name_with_cols f tb : t_name (with_cols f tb) = t_name tb. Proof. reflexivity. Qed.
+Lemma name_with_cons f tb : t_name (with_cons f tb) = t_name tb. Proof. reflexivity. Qed.
+
+Lemma changed_on_table A t f tb r : (forall x, t_name (f x) = t_name x) -> kfind t_name t A = Some tb ->
+  changed A (on_table t f A) r ->
+  match r with
+  | RTable _ => False
+  | RColumn t' n => t' = t /\ kfind c_name n (t_cols tb) <> kfind c_name n (t_cols (f tb))
+  | RCons t' n => t' = t /\ kfind k_name n (t_cons tb) <> kfind k_name n (t_cons (f tb))
+  end.
+Proof. intros Hf Ht. unfold on_table. destruct r as [n|t' n|t' n]; simpl.
+  - unfold look_table. rewrite kfind_kupdate; auto. destruct (N.eqb t n); [|tauto].
+    destruct (kfind t_name n A); simpl; intros [[? ?]|[? ?]]; congruence.
+  - unfold look_col. rewrite kfind_kupdate; auto. destruct (N.eqb_spec t t') as [<-|Hne]; [|tauto].
+    rewrite Ht. simpl. auto.
+  - unfold look_cons. rewrite kfind_kupdate; auto. destruct (N.eqb_spec t t') as [<-|Hne]; [|tauto].
+    rewrite Ht. simpl. auto.
+Qed.
+
+Lemma in_table_some t A p : in_table t A p = true -> exists tb, kfind t_name t A = Some tb /\ p tb = true.
+Proof. unfold in_table. destruct (kfind t_name t A); eauto; congruence. Qed.
+
+Lemma inside_col tb n x : kfind c_name n (t_cols tb) = Some x -> In (RColumn (t_name tb) n) (inside tb).
+Proof. intros H. apply kfind_some in H. destruct H as [H1 H2]. unfold inside. right. apply in_app_iff. left.
+  apply in_map_iff. exists x. subst; auto. Qed.
+Lemma inside_cons tb n x : kfind k_name n (t_cons tb) = Some x -> In (RCons (t_name tb) n) (inside tb).
+Proof. intros H. apply kfind_some in H. destruct H as [H1 H2]. unfold inside. right. apply in_app_iff. right.
+  apply in_map_iff. exists x. subst; auto. Qed.
+
+Lemma changed_touches A m r : applicable m A = true -> changed A (apply_mut m A) r -> In r (touches A m).
+Proof. intros Ha Hc. destruct m as [t|n0|t c|t c|t c|t c y|t k|t n0|t k]; simpl in *.
+  - (* add table *) destruct r as [n|t' n|t' n]; simpl in Hc.
+    + unfold look_table in Hc. rewrite kfind_app, kfind_single in Hc. left.
+      destruct (kfind t_name n A); [destruct Hc as [[? ?]|[? ?]]; congruence|].
+      destruct (N.eqb_spec (t_name t) n); [congruence|]. destruct Hc as [[? ?]|[? ?]]; congruence.
+    + unfold look_col in Hc. rewrite kfind_app, kfind_single in Hc.
+      destruct (kfind t_name t' A); [congruence|]. destruct (N.eqb_spec (t_name t) t') as [<-|]; [|congruence].
+      destruct (kfind c_name n (t_cols t)) eqn:E; [|congruence]. eapply inside_col; eauto.
+    + unfold look_cons in Hc. rewrite kfind_app, kfind_single in Hc.
+      destruct (kfind t_name t' A); [congruence|]. destruct (N.eqb_spec (t_name t) t') as [<-|]; [|congruence].
+      destruct (kfind k_name n (t_cons t)) eqn:E; [|congruence]. eapply inside_cons; eauto.
+  - (* drop table *) apply memN_true_kfind in Ha. destruct Ha as [tb Htb]. rewrite Htb.
+    destruct (kfind_some _ _ _ _ Htb) as [_ Hn]. destruct r as [n|t' n|t' n]; simpl in Hc.
+    + unfold look_table in Hc. rewrite kfind_kremove in Hc. left. destruct (N.eqb_spec n0 n); [congruence|].
+      destruct Hc as [[? ?]|[? ?]]; congruence.
+    + unfold look_col in Hc. rewrite kfind_kremove in Hc. destruct (N.eqb_spec n0 t') as [<-|]; [|congruence].
+      rewrite Htb in Hc. destruct (kfind c_name n (t_cols tb)) eqn:E; [|congruence]. rewrite <- Hn. eapply inside_col; eauto.
+    + unfold look_cons in Hc. rewrite kfind_kremove in Hc. destruct (N.eqb_spec n0 t') as [<-|]; [|congruence].
+      rewrite Htb in Hc. destruct (kfind k_name n (t_cons tb)) eqn:E; [|congruence]. rewrite <- Hn. eapply inside_cons; eauto.
+  - (* add column *) apply in_table_some in Ha. destruct Ha as [tb [Htb Hp]].
+    apply (changed_on_table A t _ tb r (name_with_cols _) Htb) in Hc. left. destruct r as [n|t' n|t' n]; simpl in Hc; try tauto.
+    destruct Hc as [-> Hc]. rewrite kfind_app, kfind_single in Hc. destruct (kfind c_name n (t_cols tb)); [congruence|].
+    destruct (N.eqb_spec (c_name c) n); congruence.
+  - (* drop column *) apply in_table_some in Ha. destruct Ha as [tb [Htb Hp]].
+    apply (changed_on_table A t _ tb r (name_with_cols _) Htb) in Hc. left. destruct r as [n|t' n|t' n]; simpl in Hc; try tauto.
+    destruct Hc as [-> Hc]. rewrite kfind_kremove in Hc. destruct (N.eqb_spec c n); congruence.
+  - (* flip nullable *) apply in_table_some in Ha. destruct Ha as [tb [Htb Hp]].
+    apply (changed_on_table A t _ tb r (name_with_cols _) Htb) in Hc. left. destruct r as [n|t' n|t' n]; simpl in Hc; try tauto.
+    destruct Hc as [-> Hc]. rewrite kfind_kupdate in Hc; [|reflexivity]. destruct (N.eqb_spec c n); congruence.
+  - (* change type *) apply in_table_some in Ha. destruct Ha as [tb [Htb Hp]].
+    apply (changed_on_table A t _ tb r (name_with_cols _) Htb) in Hc. left. destruct r as [n|t' n|t' n]; simpl in Hc; try tauto.
+    destruct Hc as [-> Hc]. rewrite kfind_kupdate in Hc; [|reflexivity]. destruct (N.eqb_spec c n); congruence.
+  - (* add cons *) apply in_table_some in Ha. destruct Ha as [tb [Htb Hp]].
+    apply (changed_on_table A t _ tb r (name_with_cons _) Htb) in Hc. left. destruct r as [n|t' n|t' n]; simpl in Hc; try tauto.
+    destruct Hc as [-> Hc]. rewrite kfind_app, kfind_single in Hc. destruct (kfind k_name n (t_cons tb)); [congruence|].
+    destruct (N.eqb_spec (k_name k) n); congruence.
+  - (* drop cons *) apply in_table_some in Ha. destruct Ha as [tb [Htb Hp]].
+    apply (changed_on_table A t _ tb r (name_with_cons _) Htb) in Hc. left. destruct r as [n|t' n|t' n]; simpl in Hc; try tauto.
+    destruct Hc as [-> Hc]. rewrite kfind_kremove in Hc. destruct (N.eqb_spec n0 n); congruence.
+  - (* change cons *) apply in_table_some in Ha. destruct Ha as [tb [Htb Hp]].
+    apply (changed_on_table A t _ tb r (name_with_cons _) Htb) in Hc. left. destruct r as [n|t' n|t' n]; simpl in Hc; try tauto.
+    destruct Hc as [-> Hc]. rewrite kfind_kreplace in Hc. destruct (N.eqb_spec (k_name k) n); congruence.
+Qed.
+
+(* ================================================================ the catalogue: detection *)
+Lemma in_diff_on_table g A t f tb o : (forall x, t_name (f x) = t_name x) -> kfind t_name t A = Some tb ->
+  In o (existing_table g tb (f tb)) -> In o (diff g A (on_table t f A)).
+Proof. intros Hf Htb Ho. unfold diff. rewrite in_compare_tables. right; right. exists (f tb), tb.
+  destruct (kfind_some _ _ _ _ Htb) as [Hin Hn]. split; [|split; auto].
+  - unfold on_table, kupdate. apply in_map_iff. exists tb. rewrite Hn, N.eqb_refl. auto.
+  - rewrite Hf, Hn. auto. Qed.
+
+Lemma in_pre g c m o : In o (compare_columns_pre g (t_name m) c m) -> In o (existing_table g c m).
+Proof. unfold existing_table. rewrite !in_app_iff. auto. Qed.
+Lemma in_ciu g c m o : In o (compare_indexes_and_uniques (t_name m) (Some c) (Some m)) -> In o (existing_table g c m).
+Proof. unfold existing_table. rewrite !in_app_iff. auto. Qed.
+Lemma in_post g c m o : In o (compare_columns_post (t_name m) c m) -> In o (existing_table g c m).
+Proof. unfold existing_table. rewrite !in_app_iff. auto. Qed.
+
+Lemma in_kupdate_of {A} (key:A->N) n f l a : In a l -> key a = n -> In (f a) (kupdate key n f l).
+Proof. intros Hin Hk. unfold kupdate. apply in_map_iff. exists a. rewrite Hk, N.eqb_refl. auto. Qed.
+
+Lemma eqb_negb_false b : Bool.eqb b (negb b) = false.
+Proof. destruct b; reflexivity. Qed.
+
+Theorem detects_catalogue g A m : nd_schema A -> applicable m A = true -> enabled g m = true ->
+  detects A m (diff g A (apply_mut m A)).
+Proof. intros [HAn HAt] Ha He k Hk. destruct m as [t|n0|t c|t c|t c|t c y|t kk|t n0|t kk]; simpl in *.
+  - (* add table *) destruct Hk as [<-|[]]. exists (OpCreateTable (create_table_of t)). split; [|auto].
+    unfold diff. rewrite in_compare_tables. left. exists t. split; [apply in_or_app; simpl; auto|]. split.
+    + apply negb_true_iff in Ha. auto.
+    + left; auto.
+  - (* drop table *) destruct Hk as [<-|[]]. apply memN_true_kfind in Ha. destruct Ha as [tb Htb].
+    destruct (kfind_some _ _ _ _ Htb) as [Hin Hn]. exists (OpDropTable n0). split; [|auto].
+    unfold diff. rewrite in_compare_tables. right; left. exists tb. split; auto. split.
+    + rewrite memN_keys, kfind_kremove, Hn, N.eqb_refl. auto.
+    + unfold removed_table. apply in_or_app. right. rewrite Hn. left; auto.
+  - (* add column *) destruct Hk as [<-|[]]. apply in_table_some in Ha. destruct Ha as [tb [Htb Hp]].
+    destruct (kfind_some _ _ _ _ Htb) as [Hin Hn]. apply negb_true_iff in Hp.
+    exists (OpAddColumn t c). split; [|auto]. eapply in_diff_on_table; eauto. apply in_pre.
+    unfold compare_columns_pre. apply in_or_app. left. apply in_flat_map. exists c. cbn [with_cols t_cols t_name].
+    split; [apply in_or_app; simpl; auto|]. rewrite Hp, Hn. left; auto.
+  - (* drop column *) destruct Hk as [<-|[]]. apply in_table_some in Ha. destruct Ha as [tb [Htb Hp]].
+    destruct (kfind_some _ _ _ _ Htb) as [Hin Hn]. apply memN_true_kfind in Hp. destruct Hp as [x Hx].
+    destruct (kfind_some _ _ _ _ Hx) as [Hxin Hxn].
+    exists (OpDropColumn t c). split; [|auto]. eapply in_diff_on_table; eauto. apply in_post.
+    unfold compare_columns_post. apply in_flat_map. exists x. cbn [with_cols t_cols t_name]. split; auto.
+    rewrite memN_keys, kfind_kremove, Hxn, N.eqb_refl, Hn. left; auto.
+  - (* flip nullable *) destruct Hk as [<-|[]]. apply in_table_some in Ha. destruct Ha as [tb [Htb Hp]].
+    destruct (kfind_some _ _ _ _ Htb) as [Hin Hn]. apply memN_true_kfind in Hp. destruct Hp as [x Hx].
+    destruct (kfind_some _ _ _ _ Hx) as [Hxin Hxn].
+    exists (OpAlterColumn t c (c_null x) (c_ty x) (Some (negb (c_null x))) None). split; [|auto].
+    eapply in_diff_on_table; eauto. apply in_pre.
+    unfold compare_columns_pre. apply in_or_app. right. apply in_flat_map. exists (flip_null x). cbn [with_cols t_cols t_name].
+    split; [apply in_kupdate_of; auto|]. cbn [flip_null c_name]. rewrite Hxn, Hx.
+    unfold alter_column, compare_nullable, compare_type_col. cbn [flip_null c_null c_ty c_name].
+    rewrite eqb_negb_false, ctx_compare_type_refl, Hxn, Hn. left; auto.
+  - (* change type *) destruct Hk as [<-|[]]. apply in_table_some in Ha. destruct Ha as [tb [Htb Hp]].
+    destruct (kfind_some _ _ _ _ Htb) as [Hin Hn]. destruct (kfind c_name c (t_cols tb)) as [x|] eqn:Hx; [|congruence].
+    destruct (kfind_some _ _ _ _ Hx) as [Hxin Hxn]. apply negb_true_iff in Hp.
+    exists (OpAlterColumn t c (c_null x) (c_ty x) None (Some y)). split; [|auto].
+    eapply in_diff_on_table; eauto. apply in_pre.
+    unfold compare_columns_pre. apply in_or_app. right. apply in_flat_map. exists (set_ty y x). cbn [with_cols t_cols t_name].
+    split; [apply in_kupdate_of; auto|]. cbn [set_ty c_name]. rewrite Hxn, Hx.
+    unfold alter_column, compare_nullable, compare_type_col, ctx_compare_type, impl_compare_type. cbn [set_ty c_null c_ty c_name].
+    rewrite eqb_reflx, He, Hp, Hxn, Hn. left; auto.
+  - (* add cons *) destruct Hk as [<-|[]]. apply in_table_some in Ha. destruct Ha as [tb [Htb Hp]].
+    destruct (kfind_some _ _ _ _ Htb) as [Hin Hn]. apply negb_true_iff in Hp.
+    exists (OpAddCons t kk). split; [|split; auto]. 2:{ destruct kk; reflexivity. }
+    eapply in_diff_on_table; eauto. apply in_ciu.
+    unfold compare_indexes_and_uniques. cbn [orb negb]. apply in_or_app. right. apply in_or_app. right.
+    apply in_flat_map. exists kk. cbn [with_cons t_cons t_name]. split; [apply in_or_app; simpl; auto|].
+    rewrite Hp, obj_added_true, Hn. left; auto.
+  - (* drop cons *) apply in_table_some in Ha. destruct Ha as [tb [Htb Hp]].
+    destruct (kfind_some _ _ _ _ Htb) as [Hin Hn]. apply memN_true_kfind in Hp. destruct Hp as [x Hx].
+    destruct (kfind_some _ _ _ _ Hx) as [Hxin Hxn].
+    unfold in_table in Hk. rewrite Htb, Hx in Hk. destruct Hk as [<-|[]].
+    exists (OpDropCons t (is_ix x) n0). split; [|split; auto]. 2:{ destruct (is_ix x); reflexivity. }
+    eapply in_diff_on_table; eauto. apply in_ciu.
+    unfold compare_indexes_and_uniques. cbn [orb negb]. apply in_or_app. left.
+    apply in_flat_map. exists x. cbn [with_cons t_cons t_name]. split; auto.
+    rewrite memN_keys, kfind_kremove, Hxn, N.eqb_refl, obj_removed_true, Hxn, Hn. left; auto.
+  - (* change cons *) apply in_table_some in Ha. destruct Ha as [tb [Htb Hp]].
+    destruct (kfind_some _ _ _ _ Htb) as [Hin Hn]. destruct (kfind k_name (k_name kk) (t_cons tb)) as [x|] eqn:Hx; [|congruence].
+    destruct (kfind_some _ _ _ _ Hx) as [Hxin Hxn]. apply andb_true_iff in Hp. destruct Hp as [Hi Hs]. apply negb_true_iff in Hs.
+    assert (Hops: forall o, In o (obj_changed t x kk) -> In o (diff g A (on_table t (with_cons (kupdate k_name (k_name kk) (fun _ => kk))) A))).
+    { intros o Ho. eapply in_diff_on_table; eauto. apply in_ciu.
+      unfold compare_indexes_and_uniques. cbn [orb negb]. apply in_or_app. right. apply in_or_app. left.
+      apply in_flat_map. exists kk. cbn [with_cons t_cons t_name]. split.
+      - apply (in_kupdate_of k_name (k_name kk) (fun _ => kk) (t_cons tb) x); auto.
+      - rewrite Hx, Hi, Hs, Hn. auto. }
+    apply eqb_prop in Hi. unfold obj_changed in Hops.
+    destruct (is_ix kk) eqn:Ek; simpl in Hk; destruct Hk as [<-|[<-|[]]].
+    + exists (OpDropCons t (is_ix x) (k_name x)). split; [apply Hops; simpl; auto|]. simpl. rewrite Hi, Hxn. auto.
+    + exists (OpAddCons t kk). split; [apply Hops; simpl; auto|]. simpl. auto.
+    + exists (OpDropCons t (is_ix x) (k_name x)). split; [apply Hops; simpl; auto|]. simpl. rewrite Hi, Hxn. auto.
+    + exists (OpAddCons t kk). split; [apply Hops; simpl; auto|]. simpl. unfold is_uq. rewrite Ek. auto.
+Qed.
+
+Theorem nothing_else_catalogue g A m : nd_schema A -> nd_schema (apply_mut m A) -> applicable m A = true ->
+  nothing_else A m (diff g A (apply_mut m A)).
+Proof. intros HA HB Ha o Ho. apply changed_touches; auto. eapply diff_local; eauto. Qed.
+
+(* ================================================================ decider, model *)
+Lemma objref_eqb_eq a b : objref_eqb a b = true -> a = b.
+Proof. destruct a, b; simpl; try congruence; rewrite ?andb_true_iff, ?N.eqb_eq; intuition congruence. Qed.
+
+Lemma detectsb_sound A m ops : detectsb A m ops = true -> detects A m ops.
+Proof. unfold detectsb, detects. rewrite forallb_forall. intros H k Hk. apply H in Hk. apply existsb_exists in Hk.
+  destruct Hk as [o [Ho Hb]]. apply andb_true_iff in Hb. destruct Hb as [H1 H2]. exists o. split; auto. split; auto.
+  apply objref_eqb_eq; auto. Qed.
+Lemma nothing_elseb_sound A m ops : nothing_elseb A m ops = true -> nothing_else A m ops.
+Proof. unfold nothing_elseb, nothing_else. rewrite forallb_forall. intros H o Ho. apply H in Ho. apply existsb_exists in Ho.
+  destruct Ho as [r [Hr Hb]]. apply objref_eqb_eq in Hb. congruence. Qed.
+
+Theorem check_C07_sound i out : check_C07 i out = true -> C07_holds i out.
+Proof. unfold check_C07, C07_holds. rewrite andb_true_iff, forallb_forall. intros [H1 H2]. split.
+  - apply (list_eqb_sound cfg_eqb cfg_eqb_eq); auto.
+  - intros g ops Hin. specialize (H2 _ Hin). simpl in H2. apply andb_true_iff in H2. destruct H2 as [Hd Hn]. split.
+    + intros He. rewrite He in Hd. simpl in Hd. apply detectsb_sound; auto.
+    + apply nothing_elseb_sound; auto. Qed.
+
+Lemma wf_nd_schema S : wf_schemab S = true -> nd_schema S.
+Proof. apply wf_schema_nd. Qed.
+
+Theorem model_C07_holds i : inclass_C07 i = true -> C07_holds i (model_C07 i).
+Proof. destruct i as [A m]. unfold inclass_C07. simpl. rewrite !andb_true_iff. intros [[[[HA Ha] HB] _] _].
+  apply wf_nd_schema in HA. apply wf_nd_schema in HB. unfold C07_holds, model_C07. simpl. split; [reflexivity|].
+  intros g ops Hin.
+  assert (Ho: ops = diff g A (apply_mut m A)).
+  { rewrite reflect_sqlite_id in Hin. repeat (destruct Hin as [Hin|Hin]; [inversion Hin; reflexivity|]). inversion Hin. }
+  subst ops. split.
+  - intros He. apply detects_catalogue; auto.
+  - apply nothing_else_catalogue; auto. Qed.
